@@ -1,6 +1,7 @@
 package props
 
 import (
+	"verif/harness/internal/sched"
 	"context"
 	"errors"
 	"fmt"
@@ -51,6 +52,7 @@ type c20Trace struct {
 	err error // error value returned by failing logic steps (nil: errC20)
 	// distinctNames: every named value step gets its own value name (default: all steps share the name "v")
 	distinctNames bool
+	perThread     [][]uint16 // non-nil: events by evaluating scheduler thread (one checker shared by several threads)
 }
 
 func (t *c20Trace) name(i int) string {
@@ -76,7 +78,16 @@ var c20ErrKinds = []struct {
 	{"os.ErrNotExist", os.ErrNotExist}, {"net-timeout", &net.DNSError{IsTimeout: true, Err: "timeout"}},
 }
 
-func (t *c20Trace) add(step, kind int) { t.ev = append(t.ev, uint16(step<<4|kind)) }
+func (t *c20Trace) add(step, kind int) {
+	if t.perThread != nil {
+		// one checker evaluated by several threads: events are attributed to the evaluating thread
+		if th := sched.CurrentThread(); th >= 0 && th < len(t.perThread) {
+			t.perThread[th] = append(t.perThread[th], uint16(step<<4|kind))
+			return
+		}
+	}
+	t.ev = append(t.ev, uint16(step<<4|kind))
+}
 
 var errC20 = errors.New("logic failed")
 
@@ -572,6 +583,30 @@ func c20Kinds(run *ev.Run) {
 			one("WithValuesNotEmptyCheck", fmt.Sprintf("%d values, empty at %d", L, pos), func(c *checker.Checker, cb func()) {
 				c.WithValuesNotEmptyCheck(func() []string { return l }, cb)
 			}, pos >= 0)
+		}
+	}
+	// re-entrancy: a logic step evaluates its own chain once more (an evaluation inside an evaluation). Both evaluations behave as
+	// specified: the inner one runs the whole chain (s0 passes now, s1 fails: callback), then the outer one goes on with s1 (fails:
+	// callback a second time) and never reaches s2
+	{
+		var c *checker.Checker
+		depth, s1cb, s2runs, innerResult := 0, 0, 0, false
+		c = &checker.Checker{}
+		c.WithLogicStep(func() error {
+			depth++
+			if depth == 1 {
+				innerResult = c.CheckFailed()
+			}
+			return nil
+		}, func() {})
+		c.WithValueNotEmptyCheck("v", func() string { return "" }, func() { s1cb++ })
+		c.WithLogicStep(func() error { s2runs++; return nil }, func() {})
+		got := c.CheckFailed()
+		run.Evaluations.Add(1)
+		run.Outcome("kind=re-entrant-evaluation")
+		if !got || !innerResult || s1cb != 2 || s2runs != 0 {
+			run.Violate("re-entrant-evaluation-does-not-behave-like-two-evaluations", "checker.CheckFailed", []string{"re-entrant-evaluation"},
+				map[string]any{"outer_failed": got, "inner_failed": innerResult, "callbacks_of_the_failing_step": s1cb, "runs_of_the_step_behind_it": s2runs}, nil)
 		}
 	}
 	// equality is identity of the byte strings: no trimming, case folding, Unicode normalisation or NUL truncation
